@@ -19,7 +19,8 @@ CFG = dict(
     find_bad_from="find_bad_from",
     rigs=[dict(test="TestC04", timeout_quick=300, timeout_thorough=1200),
           dict(test="TestC04StreamOpsBad", timeout_quick=300, timeout_thorough=1200),
-          dict(test="TestC04Sys", timeout_quick=300, timeout_thorough=1200)],
+          dict(test="TestC04Sys", timeout_quick=300, timeout_thorough=1200),
+          dict(test="TestC04UnarySeq", timeout_quick=300, timeout_thorough=1200)],
     reason_text={"1": "implementation output differs from the Gallina model (Model/Meta.v, Base64.v, SrvStream.v)",
                  "2": "implementation output violates the property predicate (Check/C04c.v: spec_codec / spec_stream / accepted tokens / "
                       "spec_same: same keys lower-cased, same values in per-key order, byte-exact, nothing else)",
@@ -37,7 +38,9 @@ CFG = dict(
          "interceptor, or both; with and without a deadline) x handler programs of 0..5 calls over {SetHeader, SendHeader, SetTrailer, "
          "SendMsg, SendMsg rejected by the codec} with raw metadata.MD literals (mixed-case -Bin suffixes), through the stream's methods or grpc.SetHeader/SendHeader/"
          "SetTrailer, returning nil or an error, plus fixed scenarios for the three ways headers leave: handler's incoming metadata, "
-         "caller's Header()/Trailer() (unary: stats InHeader / wire list) and the wire lists vs the model; non-trivial = distinct description hash",
+         "caller's Header()/Trailer() (unary: stats InHeader / wire list) and the wire lists vs the model; sequences of 17..26 unary calls "
+         "on ONE served connection (two methods, few shared keys, some calls setting no trailer): every reply's header and trailer list "
+         "judged exactly on the wire; non-trivial = distinct description hash",
     assumptions=["encoding/base64, strings.ToLower/HasSuffix, metadata.Join and Go map iteration are Go's/grpc's: modelled and validated differentially, not verified",
                  "values under text keys are not inspected by the library (opaque)"],
 )
